@@ -694,3 +694,19 @@ fn rtcp_roundtrip_obligation_any_tag<const N: usize>(profile: SrtpProfile) {
 #[kani::proof]
 #[kani::unwind(30)]
 fn c04_roundtrip_sha80_p0_pad1() { roundtrip_obligation::<0, 1, 23>(SrtpProfile::Aes128Sha1_80); }
+
+
+// ---- modular variants: the caller is checked against the CONTRACTS of estimate_roc / update
+// (kani::stub_verified replaces the callee by "havoc the modifies set, assume the ensures clause")
+#[kani::proof]
+#[kani::unwind(30)]
+#[kani::stub_verified(SrtpContext::estimate_roc)]
+#[kani::stub_verified(SrtpContext::update)]
+fn c04_protect_layout_sha32_p0_modular() { protect_layout_obligation::<0, 0>(SrtpProfile::Aes128Sha1_32); }
+#[kani::proof]
+#[kani::unwind(30)]
+#[kani::stub_verified(SrtpContext::estimate_roc)]
+#[kani::stub_verified(SrtpContext::update)]
+fn c05_unprotect_hmac80_body10_fixedkey_modular() {
+    srtp_hmac_obligation::<10>(SrtpProfile::NullCipherHmac, [0x5a; 20]);
+}
